@@ -89,7 +89,9 @@ Definition agrees (c : case) : bool :=
       mids_ok mid d && rf_ok_doc rf_go d
       && ob3_eqb (model3 T d) load
       && match d2, mid2, load2 with
-         | Some d', Some m', Some l' => mids_ok m' d' && ob3_eqb (model3 T d') l'
+         | Some d', Some m', Some l' =>
+           mids_ok m' d' && ob3_eqb (model3 T d') l'
+           && (negb (keys_distinct T) || tr_top T d d')     (* the twin is a type-directed re-casing *)
          | None, None, None => true
          | _, _, _ => false
          end
